@@ -37,10 +37,10 @@ def names(tier):
 
 
 INT = {"type": "integer"}
-USES = ("member", "variant", "def", "member_reqonly", "member_flat", "ext_variant", "int_variant", "ext_variant_t1", "ext_variant_t2", "ext_variant_struct", "adj_variant")
+USES = ("member", "variant", "def", "member_reqonly", "member_flat", "ext_variant", "int_variant", "ext_variant_t1", "ext_variant_t2", "ext_variant_struct", "adj_variant", "int_variant_extra")
 PAIR_USES = {"member": ("member", "member_mixed", "member_reqonly", "vmember_ext", "vmember_int", "vmember_unt", "vmember_adj"), "variant": ("variant",), "def": ("def", "def_alias", "def_mixed", "def_mixed_rev"), "member_flat": ("member_flat",),
              "ext_variant": ("ext_variant",), "int_variant": ("int_variant",), "member_reqonly": (),
-             "ext_variant_t1": ("ext_variant_t1",), "ext_variant_t2": (), "ext_variant_struct": (), "adj_variant": ("adj_variant",)}
+             "ext_variant_t1": ("ext_variant_t1",), "ext_variant_t2": (), "ext_variant_struct": (), "adj_variant": ("adj_variant",), "int_variant_extra": ()}
 
 
 def doc_for(use, ns):
@@ -89,6 +89,12 @@ def doc_for(use, ns):
         subs = [{"type": "object", "properties": {"tag9": {"type": "string", "enum": [n]}, "c9": [INT, {"type": "string"}][i % 2]}, "required": ["tag9", "c9"]} for i, n in enumerate(ns)]
         subs.append({"type": "object", "properties": {"tag9": {"type": "string", "enum": ["zz9"]}, "c9": {"type": "boolean"}}, "required": ["tag9", "c9"]})
         return {"definitions": {"T": {"oneOf": subs}}}, ns + ["zz9"]
+    if use == "int_variant_extra":
+        # every variant carries a SECOND required single-valued string property that sorts before the tag and whose value differs from the tag value
+        subs = [{"type": "object", "properties": {"tag9": {"type": "string", "enum": [n]}, "aa%d" % i: {"type": "string", "enum": ["other%d" % i]}, "v%d" % i: INT}, "required": ["tag9", "aa%d" % i]}
+                for i, n in enumerate(ns)]
+        subs.append({"type": "object", "properties": {"tag9": {"type": "string", "enum": ["zz9"]}}, "required": ["tag9"]})
+        return {"definitions": {"T": {"oneOf": subs}}}, ns + ["zz9"]
     if use == "int_variant":
         subs = [{"type": "object", "properties": {"tag9": {"type": "string", "enum": [n]}, "v%d" % i: INT}, "required": ["tag9"]} for i, n in enumerate(ns)]
         subs.append({"type": "object", "properties": {"tag9": {"type": "string", "enum": ["zz9"]}}, "required": ["tag9"]})
@@ -125,7 +131,7 @@ def cases(tier, seed):
         if s in seen or s == "zz9":
             continue
         seen.add(s)
-        for use in ("member_reqonly", "member_flat", "ext_variant", "int_variant", "ext_variant_t1", "ext_variant_t2", "ext_variant_struct", "adj_variant"):
+        for use in ("member_reqonly", "member_flat", "ext_variant", "int_variant", "ext_variant_t1", "ext_variant_t2", "ext_variant_struct", "adj_variant", "int_variant_extra"):
             if use == "int_variant" and s == "":
                 pass
             out.append(mk(use, [s]))
